@@ -458,6 +458,24 @@ fn main() {
                 }
             }
         }
+        if r["simulated_cluster"] == json!(true) {
+            let nodes = r["nodes"].as_u64().unwrap() as usize;
+            let ops: Vec<usize> = r["ops"].as_array().unwrap().iter().map(|x| x.as_u64().unwrap() as usize).collect();
+            let alpha = cluster::sim::alphabet(nodes, &ops);
+            let hist: Vec<u16> = r["history"].as_array().unwrap().iter().map(|x| x.as_u64().unwrap() as u16).collect();
+            let b = cluster::sim::Bounds { max_writes: r["max_writes"].as_u64().unwrap() as usize, max_partitions: r["max_partitions"].as_u64().unwrap() as usize };
+            match cluster::sim::run(nodes, r["rf"].as_u64().unwrap() as usize, &b, &alpha, &hist, r["event"].as_u64().unwrap() as u16) {
+                Some(Err((sig, detail))) => {
+                    println!("{detail}");
+                    println!("VIOLATION property=C06 replay={} ({sig})", path.display());
+                    std::process::exit(1);
+                }
+                other => {
+                    println!("replay: no violation ({})", if other.is_none() { "event disabled" } else { "ok" });
+                    std::process::exit(0);
+                }
+            }
+        }
         if r["cluster"] == json!(true) {
             let nodes = r["nodes"].as_u64().unwrap() as usize;
             let ops: Vec<usize> = r["ops"].as_array().unwrap().iter().map(|x| x.as_u64().unwrap() as usize).collect();
@@ -588,6 +606,55 @@ fn main() {
             "violating_transitions": stats.pruned_transitions - dis, "truncated_by_time_cap": stats.truncated, "frontier_sizes": stats.frontier_sizes,
             "transitions_into_quiescent_states_where_convergence_was_judged": quiescent_states.load(std::sync::atomic::Ordering::Relaxed)}));
     }
+    // ---- part (d): the repository's cluster model with partitions that heal ----
+    let sim_all: Vec<usize> = (0..cluster::sim::SIM_OPS.len()).collect();
+    let sim_core: Vec<usize> = vec![0, 1, 2, 3];
+    // (nodes, rf, writes, partitions, ops, depth)
+    let sim_configs: Vec<(usize, usize, usize, usize, Vec<usize>, usize)> = if thorough {
+        vec![(2, 2, 3, 2, sim_all.clone(), 10), (3, 3, 3, 2, sim_core.clone(), 10), (3, 3, 2, 3, sim_all.clone(), 10), (3, 2, 3, 2, sim_core.clone(), 10), (4, 2, 2, 2, sim_core.clone(), 9)]
+    } else {
+        vec![(2, 2, 2, 1, sim_all.clone(), 7), (3, 3, 2, 2, sim_core.clone(), 8), (3, 2, 2, 1, sim_core.clone(), 7)]
+    };
+    let mut sim_reports = Vec::new();
+    for (nodes, rf, writes, parts, ops, depth) in &sim_configs {
+        let alpha = cluster::sim::alphabet(*nodes, ops);
+        let b = cluster::sim::Bounds { max_writes: *writes, max_partitions: *parts };
+        let mut bfs = Bfs::new(alpha.len(), *depth);
+        bfs.deadline = Some(Instant::now() + Duration::from_secs(if thorough { 900 } else { 60 }));
+        let disabled = std::sync::atomic::AtomicU64::new(0);
+        let quiescent_states = std::sync::atomic::AtomicU64::new(0);
+        let stats = bfs.run("init", |hist, ev| match cluster::sim::run(*nodes, *rf, &b, &alpha, hist, ev) {
+            None => {
+                disabled.fetch_add(1, std::sync::atomic::Ordering::Relaxed);
+                None
+            }
+            Some(Ok(fp)) => {
+                if fp.starts_with("Q|") {
+                    quiescent_states.fetch_add(1, std::sync::atomic::Ordering::Relaxed);
+                }
+                Some(fp)
+            }
+            Some(Err((sig, detail))) => {
+                rep.violation(sig, detail, json!({"simulated_cluster": true, "nodes": nodes, "rf": rf, "max_writes": writes, "max_partitions": parts, "ops": ops, "history": hist, "event": ev,
+                    "shown": hist.iter().map(|h| cluster::sim::show_ev(&alpha[*h as usize])).chain(std::iter::once(cluster::sim::show_ev(&alpha[ev as usize]))).collect::<Vec<_>>()}));
+                None
+            }
+        });
+        let dis = disabled.load(std::sync::atomic::Ordering::Relaxed);
+        eprintln!(
+            "simulated cluster nodes={nodes} rf={rf} writes<={writes} partitions<={parts} ops={} depth={} completed={} states={} enabled_transitions={} violating={} truncated={} ({:.1}s)",
+            ops.len(), depth, stats.depth_completed, stats.states, stats.transitions - dis, stats.pruned_transitions - dis, stats.truncated, rep.elapsed_s()
+        );
+        states += stats.states;
+        transitions += stats.transitions - dis;
+        if stats.truncated {
+            exhaustive = false;
+        }
+        sim_reports.push(json!({"nodes": nodes, "replication_factor": rf, "writes_bound": writes, "partitions_bound": parts, "op_alphabet": ops.iter().map(|o| cluster::sim::SIM_OPS[*o]).collect::<Vec<_>>(),
+            "depth_bound": depth, "depth_completed": stats.depth_completed, "states": stats.states, "enabled_transitions": stats.transitions - dis,
+            "violating_transitions": stats.pruned_transitions - dis, "truncated_by_time_cap": stats.truncated, "frontier_sizes": stats.frontier_sizes,
+            "transitions_into_quiescent_states_where_convergence_was_judged": quiescent_states.load(std::sync::atomic::Ordering::Relaxed)}));
+    }
     // node-level command-set sweep
     let cl_insts = sweep_instances();
     let cl_items: Vec<(usize, usize)> = (0..cluster::SWEEP_SEEDS.len()).flat_map(|s| (0..cl_insts.len()).map(move |i| (s, i))).collect();
@@ -617,6 +684,10 @@ fn main() {
         "transitions": transitions,
         "traces_validated_against_impl": transitions,
         "configs": reports,
+        "simulated_cluster_with_partitions": {
+            "rule": "simulator::MultiNodeSimulation (per node a real CommandExecutor, ShardReplicaState and AntiEntropyManager; rf < n: GossipRouter over a HashRing) explored by BFS over {client write on any node, gossip round after the clock moved past the greatest message delay, gossip round with the clock standing (its messages stay in flight), partition of any connected pair, heal of any partitioned pair (which runs the digest-driven anti-entropy exchange)}; states deduplicated on (per-node replication state, reads and undrained updates; in-flight queue; partitions; write and partition counters) — message delays and the RNG are left out because every delay is shorter than the one clock step in the alphabet. Oracle: in every state each node's executor serves what its replication state says; in every state without partitions, in-flight messages and undrained updates all nodes (rf < n: all owners) read k and j alike",
+            "configs": sim_reports,
+        },
         "node_level": {
             "rule": "whole nodes: real ReplicatedShardedState (16 replicated shard actors each), the real gossip outbox (GossipState behind the lock, or GossipActor), for rf < n the real GossipRouter over a HashRing; a gossip round is one iteration of GossipManager::start_gossip_loop up to the TCP write (advance_epoch, queue_deltas(collect()) with collect() = [] as server_persistent wires it, drain_outbound, serialize, one copy per target); a delivery is what the gossip listener does (deserialize, into_deltas, apply_remote_deltas). BFS over {client command on any node, round of any node with a non-empty outbox, delivery of any in-flight message in any order, one re-delivery per message}. Oracle: in every state each node serves what its replication state says; in every state with all outboxes drained and all messages delivered, all nodes responsible for a key (all nodes, or the key's ring owners) read it alike",
             "configs": cluster_reports,
